@@ -381,8 +381,12 @@ class Interp:
             if fd is None:
                 raise Unsupported("classmethod not interpretable")
             return BoundMethod(ClassVal(cls), FuncVal(fd, None, k, f.__defaults__, f.__kwdefaults__))
-        if isinstance(raw, (types.MethodDescriptorType, types.WrapperDescriptorType, types.BuiltinFunctionType,
-                            types.GetSetDescriptorType, types.MemberDescriptorType)):
+        if isinstance(raw, (types.GetSetDescriptorType, types.MemberDescriptorType)):
+            m = self.models.lookup_method(k, getattr(raw, "__name__", "?"))
+            if m is None:
+                raise Unsupported("builtin attribute %s.%s" % (k.__name__, getattr(raw, "__name__", "?")))
+            return m.fn(self, obj)          # data descriptor: evaluated on access
+        if isinstance(raw, (types.MethodDescriptorType, types.WrapperDescriptorType, types.BuiltinFunctionType)):
             m = self.models.lookup_method(k, getattr(raw, "__name__", "?"))
             if m is None:
                 raise Unsupported("builtin method %s.%s" % (k.__name__, getattr(raw, "__name__", "?")))
